@@ -386,8 +386,8 @@ func (c *Ctx) Failures() int { c.mu.Lock(); defer c.mu.Unlock(); return c.fails 
 
 // Run drives the check with rapid for n cases; on failure the shrunk input becomes a replay file.
 func (ck *Check[I]) Run(c *Ctx, t *testing.T, n int) {
-	var last *I
-	var lastErr error
+	var last, first *I
+	var lastErr, firstErr error
 	count := 0
 	ok := t.Run(ck.Name, func(t *testing.T) {
 		_ = flag.Set("rapid.checks", strconv.Itoa(n))
@@ -411,6 +411,10 @@ func (ck *Check[I]) Run(c *Ctx, t *testing.T, n int) {
 			c.record(ck.Name, key, out, func() any { return in })
 			if out.Err != nil {
 				lastErr = out.Err
+				if firstErr == nil {
+					cp := in
+					first, firstErr = &cp, out.Err
+				}
 				rt.Fatalf("%v", out.Err)
 			}
 		})
@@ -418,6 +422,10 @@ func (ck *Check[I]) Run(c *Ctx, t *testing.T, n int) {
 	switch {
 	case !ok && last != nil && lastErr != nil:
 		c.fail(ck.Name, *last, lastErr)
+	case !ok && firstErr != nil:
+		// the oracle failed on real code, but not again when rapid re-ran the same input alone: the outcome depends on what
+		// was processed before (state shared between independent operations). Reported with the input that failed.
+		c.fail(ck.Name, *first, fmt.Errorf("%w\n(NOTE: failed in the course of the run but passes when re-run in isolation: the library's behaviour depends on earlier, unrelated operations)", firstErr))
 	case !ok:
 		c.Inconclusive("check=%s rapid reported a failure that is not an oracle failure (generator or harness problem)", ck.Name)
 	case count < n:
